@@ -22,6 +22,24 @@ CLAIMS = {
  'C09': dict(text='StructField(k) picks any remaining field, so the order-free invariants hold for every visit order in the model; every real case is executed under all n! '
                   'forced visit orders (observed through field events) and TLC compares the logged results of one case pairwise and with the order-free reference.',
              technique='TLC model checking of ZogExec (all visit orders) + TLC trace validation of runs under every forced order', ref='5 C09'),
+ 'C03': dict(text='Structural part through the traversal machine: TLC checks C03_Dest / M_DestAll (destination = RefDestParse: coerced leaf, default, untouched absent optional, slice length and order, '
+                  'pointer allocation, fields the schema does not name) for all visit orders; the logged destination of every successful real Parse is compared with RefDestParse by TLC. '
+                  'Leaf representations covered: native, string and float64 (JSON number) forms of int/float/bool/string/time.',
+             technique='TLC model checking of ZogExec + TLC trace validation of recorded real executions (Trace_Exec)', ref='5 C03'),
+ 'C04': dict(text='C04 is a finite decision table (spec/Tab_C04.tla: node kind x Required/Default/NotNil x input class x mode x position, 1784 rows). TLC checks that the reference semantics obeys the literal '
+                  'statement of C04 on every row (TableOK), model-checks the traversal machine on every row (C04_Machine), and emits every row; all rows are replayed on the real library and validated by TLC '
+                  '(required/not_nil bag, destination, recording tests show whether tests ran), with whitespace-padded present strings.',
+             technique='TLC-checked decision table + TLC model checking of ZogExec on every row + TLC trace validation of all rows replayed on the real library', ref='5 C04, 3.8'),
+ 'C10': dict(text='TLC validates, on every logged real result, that each issue sits under the key equal to its path ($root for the empty path), that $first holds exactly the first issue recorded '
+                  '(first issue event), the sanitizers, and lock-step that every field is resolved under KeyOf (source tag > zog tag > schema key; Validate: zog tag > key) at every depth, for Go maps, '
+                  'Validate and JSON documents with all tag combinations. Known findings D17/D24 are attributed by re-validating against the named specification variant.',
+             technique='TLC trace validation of recorded real executions (Trace_Exec: KeyOf/PathStr/$first/key=path) + TLC model checking of ZogExec', ref='5 C10'),
+ 'C12': dict(text='TLC checks C12_PTOnlyWhenClean and C12_CallbackArgs on the traversal machine; recording callbacks of the harness emit one event per invocation (callback id from ctx.Issue().Path, '
+                  'argument class value/self-pointer/nil, value seen, ctx.Get snapshot) which TLC validates lock-step: order, count, timing (no issue exists), first error stops the rest and is reported at the node path.',
+             technique='TLC model checking of ZogExec + lock-step TLC trace validation of callback events (Trace_Exec)', ref='5 C12'),
+ 'C13': dict(text='For fully populated values the harness runs Validate(&v) and Parse(toMap(v), &fresh) on the real library; TLC validates both traces against the machine and compares the two logged results '
+                  '(path, code, type, message, resulting value). PostTransforms that fail are excluded from pairs (their issues depend on the visit order by design).',
+             technique='TLC trace validation of paired real executions (Trace_Exec PairVerdicts) + TLC model checking of ZogExec in both modes', ref='5 C13'),
 }
 NA_REASON = 'check not built yet (work in progress; DESIGN.md section 11 gives the build order)'
 checks = []
